@@ -42,4 +42,36 @@ def exec_field(scn):
         except Exception as e:
             r2["exc"] = exc_name(e).split(":")[0]
         out.append(r2)
+    out.extend(exec_lines(scn, rid))
     return out
+
+
+BL = 20            # beat length in ms of the single tempo point (3000 bpm), so that the model's small times span several beats
+DIVS = (1, 2, 4)
+
+
+def exec_lines(scn, rid):
+    """PlayField + PFDrawBeatLines alone on the same chart: every non-background pixel with the division its colour stands for."""
+    from harness.charts import new_map
+    notes, c = scn["notes"], scn["cfg"]
+    rec = {"id": rid + "/lines", "op": "lines", "cls": "ext.playfield.lines", "ext": True, "notes": notes, "cfg": c, "exc": "",
+           "bl": BL, "divs": list(DIVS), "w": 0, "h": 0, "lpx": []}
+    try:
+        from reamber.algorithms.playField import PlayField
+        from reamber.algorithms.playField.parts import PFDrawBeatLines
+        from reamber.base.RAConst import RAConst
+        t0 = min(n["t"] for n in notes)
+        m = new_map("osu", {"hits": [{"offset": float(n["t"]), "column": n["c"]} for n in notes if n["n"] == 0],
+                            "holds": [{"offset": float(n["t"]), "column": n["c"], "length": float(n["n"])} for n in notes if n["n"] > 0],
+                            "bpms": [{"offset": float(t0), "bpm": 60000.0 / BL, "metronome": 4}]})
+        pf = PlayField(m, duration_per_px=c["dpp"], note_width=c["nw"], hit_height=c["hh"], hold_height=c["lh"],
+                       column_line_width=c["clw"], start_lead=float(c["sl"]), end_lead=float(c["el"]), padding=c["pad"]) \
+            + PFDrawBeatLines(divisions=list(DIVS))
+        img = pf.export().convert("RGB")
+        rec["w"], rec["h"] = img.size
+        col = {tuple(int(v[i:i + 2], 16) for i in (1, 3, 5)): d for d, v in RAConst.DIVISION_COLORS.items()}
+        data = img.load()
+        rec["lpx"] = [[x, y, col.get(data[x, y], 0)] for y in range(img.size[1]) for x in range(img.size[0]) if data[x, y] != (0, 0, 0)]
+    except Exception as e:
+        rec["exc"] = exc_name(e).split(":")[0]
+    return [rec]
